@@ -1971,6 +1971,10 @@ def _make_init_script(
     filtered_attrs = []
     attr_dict = {}
     for a in attrs:
+        if a.on_setattr is not None and frozen is True:
+            msg = "Frozen classes can't use on_setattr."
+            raise ValueError(msg)
+
         if not a.init and a.default is NOTHING:
             continue
 
@@ -1978,10 +1982,6 @@ def _make_init_script(
         attr_dict[a.name] = a
 
         if a.on_setattr is not None:
-            if frozen is True:
-                msg = "Frozen classes can't use on_setattr."
-                raise ValueError(msg)
-
             needs_cached_setattr = True
         elif has_cls_on_setattr and a.on_setattr is not setters.NO_OP:
             needs_cached_setattr = True
